@@ -189,7 +189,7 @@ def scoping(ctx):
     rng = ctx.rng
     progs = []
     for _ in range(ctx.n(120, 1500)):
-        p = langgen.G(rng).program()
+        p = langgen.G(rng, strings=True).program()
         m = rng.random()
         if m < 0.25:      # read a name that is never bound
             p["pre"] = p["pre"] + [("wr", ("v", "zz"))]
